@@ -186,6 +186,10 @@ EFFECT = [
     "x = [w]\nx += [a]\nx[1][i].push(w)",
     "c[k] = [w]\nc[k] += [a, d]\nc[k][1][i].push(w)\nc[k][2]['p'].push(w)",
     "x = a if w == w else a\nx[i].push(w)",
+    "x = a\ny = a\nx[i].push(w)\ny == a",
+    "x = a\ny = a[i]\ny.push(w)\nx == a",
+    "acc = [[w]]\nacc += [a]\nacc += [a]\nacc[1][i].push(w)\nacc[2] == a",
+    "c[0] = a\nc[1] = a\nc[0][i].push(w)\nc[1] == a",
 ]
 if isinstance(hlib.PARAM, dict) and "t" in hlib.PARAM:
     prewarm(EFFECT[hlib.PARAM["t"]])
@@ -209,6 +213,8 @@ def effect(v0: int, v1: int, v2: int, w: int, i: int, j: int, k: int, after: int
         "a host object changed although only variables assigned from it were mutated"
     if t == 6:
         assert out[1] is True, "mutating y changed x although y was assigned from x"
+    if t in (15, 16, 17, 18):
+        assert out[1] is True, "two values stored from the same source in one evaluation share structure (mutating one is visible through the other)"
     # now the host mutates its own objects: stored values must not see it
     stored = None
     if t in (0, 6):
